@@ -140,6 +140,7 @@ func replay(in string, res *vlib.Result) {
 		return
 	}
 	for _, b := range bs {
+		vlib.Progress(b.ID)
 		res.Behaviours++
 		c := newCoordinator()
 		live := map[int]bool{}
